@@ -125,7 +125,9 @@ var attrKinds = []string{"int8", "int16", "int32", "int64", "uint8", "uint16", "
 // genValue generates an attribute value; big selects long strings / slices.
 func genValue(r *rng.R, kind string, big bool) *trace.Value {
 	v := &trace.Value{Kind: kind}
-	ext := func() int64 { return int64(rng.Pick(r, []uint64{0, 1, 0x7F, 0x80, 0xFF, 0x7FFF, 0x8000, 0xFFFFFFFF, 0x80000000, 0x7FFFFFFFFFFFFFFF, 0x8000000000000000, r.Uint64()})) }
+	ext := func() int64 {
+		return int64(rng.Pick(r, []uint64{0, 1, 0x7F, 0x80, 0xFF, 0x7FFF, 0x8000, 0xFFFFFFFF, 0x80000000, 0x7FFFFFFFFFFFFFFF, 0x8000000000000000, r.Uint64()}))
+	}
 	fl := func() uint64 {
 		return rng.Pick(r, []uint64{0, 0x3FF0000000000000, 0x7FF8000000000001, 0xFFF0000000000000, 0x3F800000, 0x7FC00001, r.Uint64(), r.Uint64() >> 32})
 	}
